@@ -378,6 +378,11 @@ def worker(bdir, tier, lo, hi, sweep_every):
         # (1) reference run
         st, evs = R.run(msg, env, uid, readchunk=rc)
         res.evaluations += 1
+        if not any(e.get("c") == "alarm" for e in evs) or not any(e.get("c") == "open" for e in evs):
+            # the instrumentation did not observe this run (shim not loaded, e.g. unreadable for this uid):
+            # nothing can be decided from it
+            res.inconclusive.append("input %s: no events from the shim (uid %d); is %s readable for that user?" % (label, uid, shim.SHIM))
+            continue
         tree = R.tree()
         dm = shim.DiskModel()
         for e in evs:
@@ -487,6 +492,9 @@ def main(tier):
     # interleave inputs over workers so that the big messages spread out
     parts = [(b.dir, tier, lo, hi, sweep_every) for lo, hi in core.chunks(n, 48)]
     res = core.pmap(worker, parts, timeout=3000)
+    if not res.counters.get("crash_points_fired") or not res.counters.get("faults_fired_by_site"):
+        res.inconclusive.append("no crash point or fault fired at all: the instrumentation is not active")
+        res.distinct = set()
     rule = ("inputs = message sizes straddling the 256/1024/2048-byte buffers x read chunkings (shim-forced), 0..5 recipients, "
             "address lengths 0..1004, every proper prefix and letter corruption of a valid envelope, 4 caller uids; per input: "
             "reference run, SIGKILL before every mutating libc call (x 3 disk variants judged on the real tree + recorded "
